@@ -237,11 +237,15 @@ fn check_metadata(c: &Timing, rank: u64, acc: &mut Acc) {
 }
 
 fn probe_timeline(c: &Timing) -> PTimeline {
+    // the settings are made in one of four orders relative to each other and to the keyframes (the order must
+    // not matter), chosen by the configuration's bits
+    let mode = (c.cycle.to_bits() ^ c.delay.to_bits() ^ (c.reverse as u32) ^ match c.rep { Rep::None => 0, Rep::Times(n) => n.wrapping_mul(3) + 1, Rep::Infinite => 2 }) % 4;
     TlSpec {
         kfs: vec![Kf { pos: 0.0, a: Some(0.0), k: None, d: None, easing: None }, Kf { pos: 1.0, a: Some(1.0), k: None, d: None, easing: None }],
         default_easing: 0,
         timing: *c,
     }
+    .builder_ordered(mode as u8)
     .build()
 }
 
@@ -409,7 +413,7 @@ pub fn run(run: Run) -> ! {
     cov.insert("traces_validated_against_impl".into(), json!(acc.exact + acc.semi_exact + acc.windowed));
     cov.insert("evaluations".into(), json!(acc.evals + acc.probe_evals));
     cov.insert("distinct_nontrivial".into(), json!(acc.exact + acc.semi_exact + acc.windowed));
-    cov.insert("rule".into(), json!("504 timing configurations (cycle in {1/4,1,3,0.3,1e-3,1e3,1e-8} x delay in {0,1/2,0.1,7,-1/2,-0.3} x repeat in {None,Times 0,1,2,7,Infinite} x reverse) + 96 with very large repeat counts (cycle 1,0.9,3 x delay 0,1/2 x Times 2^24-1,2^24,2^24+1,2^25-1,2^31,2^32-385,u32::MAX-1,u32::MAX x reverse) x {every f32 within +-1024 (thorough 4096) ulp of every phase boundary delay+j*cycle/2 (first cycles), of the delay, of the reported duration and of the configured total, a 1/16 grid up to 20, 2^k(1+j/7) up to 1.5e7 (also offset by the delay), 1e6, 1e30, f32::MAX, MIN_POSITIVE, negative times}; thorough additionally sweeps EVERY finite f32 bit pattern (both signs) for 64 configurations. Oracle RefTimeScale: position in [0,1]; NotStarted iff t<delay (exact); when the arithmetic is exact (power-of-two cycle, exact t-delay) the phase, position and loop flags must equal the reference bit for bit; when only t-delay is exact the phase and flags must be equal and the position within 3 ulp(1) (the remainder is exact, only the division rounds); otherwise agreement with the reference at some t' within +-3 ulp(t) (position tolerance stated per case); when 3 ulp(t) >= cycle/4 only boundedness and far-from-end terminal consistency are asserted (counted as bounded_only). Every evaluation of a finite configuration is also checked against the REPORTED duration: terminal strictly before get_duration() or not terminal strictly after it is a violation (no slack when delay = 0, 2 ulp otherwise). Metadata: delay/cycle/repeat exact, duration within 1.5 ulp (2.5 when repeats+1 needs more than 24 bits) of delay+cycle*(repeats+1), infinite iff Infinite; a timeline without keyframes reports the same metadata; a linear 0->1 probe through Timeline::update must show exactly the position. non-trivial = evaluations compared with the reference (exact + windowed)"));
+    cov.insert("rule".into(), json!("504 timing configurations (cycle in {1/4,1,3,0.3,1e-3,1e3,1e-8} x delay in {0,1/2,0.1,7,-1/2,-0.3} x repeat in {None,Times 0,1,2,7,Infinite} x reverse) + 96 with very large repeat counts (cycle 1,0.9,3 x delay 0,1/2 x Times 2^24-1,2^24,2^24+1,2^25-1,2^31,2^32-385,u32::MAX-1,u32::MAX x reverse) x {every f32 within +-1024 (thorough 4096) ulp of every phase boundary delay+j*cycle/2 (first cycles), of the delay, of the reported duration and of the configured total, a 1/16 grid up to 20, 2^k(1+j/7) up to 1.5e7 (also offset by the delay), 1e6, 1e30, f32::MAX, MIN_POSITIVE, negative times}; thorough additionally sweeps EVERY finite f32 bit pattern (both signs) for 64 configurations. Oracle RefTimeScale: position in [0,1]; NotStarted iff t<delay (exact); when the arithmetic is exact (power-of-two cycle, exact t-delay) the phase, position and loop flags must equal the reference bit for bit; when only t-delay is exact the phase and flags must be equal and the position within 3 ulp(1) (the remainder is exact, only the division rounds); otherwise agreement with the reference at some t' within +-3 ulp(t) (position tolerance stated per case); when 3 ulp(t) >= cycle/4 only boundedness and far-from-end terminal consistency are asserted (counted as bounded_only). Every evaluation of a finite configuration is also checked against the REPORTED duration: terminal strictly before get_duration() or not terminal strictly after it is a violation (no slack when delay = 0, 2 ulp otherwise). Metadata: delay/cycle/repeat exact, duration within 1.5 ulp (2.5 when repeats+1 needs more than 24 bits) of delay+cycle*(repeats+1), infinite iff Infinite; a timeline without keyframes reports the same metadata; a linear 0->1 probe through Timeline::update must show exactly the position (the probe's duration/delay/repeat/reverse setters are called in one of four orders). non-trivial = evaluations compared with the reference (exact + windowed)"));
     cov.insert("exhaustive".into(), json!(true));
     cov.insert("compared_exact".into(), json!(acc.exact));
     cov.insert("compared_exact_phase_position_within_3ulp".into(), json!(acc.semi_exact));
